@@ -1121,13 +1121,16 @@ def loader_shape(lo, got):
             seq = []
             for st in n.body:
                 u = ast.unparse(st)
-                if u == "already_included.append(incl_loc)":
+                call = st.value if isinstance(st, (ast.Expr, ast.Assign)) and isinstance(st.value, ast.Call) else None
+                fname = ast.unparse(call.func) if call is not None else ""
+                if isinstance(st, ast.Expr) and fname == "already_included.append" and len(call.args) == 1:
                     seq.append("append")
-                elif u.startswith("nml2_sub_doc = read_neuroml2_file(") or u.startswith("nml2_sub_doc = NeuroMLHdf5Loader.load("):
+                elif isinstance(st, ast.Assign) and fname in ("read_neuroml2_file", "NeuroMLHdf5Loader.load") \
+                        and len(st.targets) == 1 and isinstance(st.targets[0], ast.Name):
                     seq.append("load")
-                elif u.replace("utils.", "") == "add_all_to_document(nml2_sub_doc, nml2_doc)":
+                elif isinstance(st, ast.Expr) and fname.split(".")[-1] == "add_all_to_document" and len(call.args) >= 2:
                     seq.append("add_all")
-                elif u.startswith("print_method("):
+                elif isinstance(st, ast.Expr) and fname == "print_method":
                     continue
                 else:
                     seq.append("other:" + u[:40])
